@@ -141,6 +141,57 @@ fn run(ops: &[Op], rep: &Report) -> bool {
     true
 }
 
+/// the stopwatch is closed BY REFERENCE over and over while owned guards (all of zero length: the
+/// clock stands still) are being stopped on another thread: every close must report the one
+/// completed span
+fn concurrent_close_round(rng: &mut Rng, rep: &Report) -> bool {
+    let ts = ManuallyAdvancedTimeSource::at_time(UNIX_EPOCH);
+    let mut sw = Stopwatch::new_from_timesource(TimeSource::custom(ts.clone()));
+    let g = sw.start_owned();
+    ts.update_instant(Duration::from_millis(1000));
+    drop(g);
+    let n = if is_miri() { 3 } else { 50 + rng.usize_below(400) };
+    let guards: Vec<OwnedTimerGuard> = (0..n).map(|_| sw.start_owned()).collect();
+    let done = std::sync::Arc::new(std::sync::atomic::AtomicBool::new(false));
+    let d2 = done.clone();
+    let stopper = std::thread::spawn(move || {
+        for (i, g) in guards.into_iter().enumerate() {
+            match i % 3 {
+                0 => drop(g),
+                1 => {
+                    let _ = g.stop();
+                }
+                _ => g.discard(),
+            }
+        }
+        d2.store(true, std::sync::atomic::Ordering::SeqCst);
+    });
+    let mut closes = 0u64;
+    let mut bad = None;
+    while !done.load(std::sync::atomic::Ordering::SeqCst) || closes < 3 {
+        let got = (&sw).close();
+        closes += 1;
+        if got != Some(Duration::from_millis(1000)) {
+            bad = Some(got);
+            break;
+        }
+        if is_miri() {
+            std::thread::yield_now();
+        }
+    }
+    let _ = stopper.join();
+    if let Some(got) = bad {
+        rep.violation(
+            "stopwatch-total-differs-from-reference",
+            json!({"what": "close(&stopwatch) while zero-length owned guards were being stopped on another thread: the one completed span (1 s) must be reported by every close",
+                   "close_number": closes, "reported": format!("{got:?}"), "expected": "Some(1s)", "owned_guards": n}),
+        );
+        return false;
+    }
+    rep.count("concurrent_closes_by_reference", closes);
+    true
+}
+
 /// several owned guards of one stopwatch end at the same moment on different threads
 fn concurrent_round(rng: &mut Rng, rep: &Report) -> bool {
     let ts = ManuallyAdvancedTimeSource::at_time(UNIX_EPOCH);
@@ -282,6 +333,10 @@ fn random_sequences(args: &Args, rep: &Report, budget: Duration) {
                             return;
                         }
                     }
+                    rep.eval();
+                    if !concurrent_close_round(&mut rng, rep) {
+                        return;
+                    }
                     rep.distinct(Fnv::new().str(&format!("{:?}", &ops[..12.min(ops.len())])).u64(len as u64).finish());
                 }
             });
@@ -393,6 +448,45 @@ fn timers_and_timestamps(args: &Args, rep: &Report) {
             observed.push(("runtime again after the thread-local guard dropped", secs(time_source()), 333));
         });
     }
+    // values created under source A report A's clock also when they are closed where another
+    // override is in force (another thread's thread-local source, a nested scope)
+    {
+        let (timer, ts, on_close, sw_guard) = {
+            let _g = set_time_source(TimeSource::custom(a.clone()));
+            let mut sw = Stopwatch::new();
+            let g = sw.start_owned();
+            (Timer::start_now(), Timestamp::now(), TimestampOnClose::default(), (sw, g))
+        };
+        a.update_instant(Duration::from_secs(10));
+        a.update_time(UNIX_EPOCH + Duration::from_secs(121));
+        let (mut sw, g) = sw_guard;
+        let closer = std::thread::spawn({
+            let b = b.clone();
+            move || {
+                let _g = set_time_source(TimeSource::custom(b));
+                let span = g.stop();
+                (timer.close(), ts.close(), on_close.close(), span)
+            }
+        });
+        let (t, created, closed, span) = closer.join().expect("closer thread");
+        let epoch = |v: &metrique::timers::TimestampValue| match record_value(v) {
+            Val::String(s) => s.parse::<f64>().ok(),
+            _ => None,
+        };
+        rep.eval();
+        let got = json!({"timer": format!("{t:?}"), "owned_guard_span": format!("{span:?}"), "stopwatch": format!("{:?}", (&sw).close()), "timestamp_ms": epoch(&created), "timestamp_on_close_ms": epoch(&closed)});
+        let want = json!({"timer": format!("{:?}", Duration::from_secs(10)), "owned_guard_span": format!("{:?}", Duration::from_secs(10)), "stopwatch": format!("{:?}", Some(Duration::from_secs(10))), "timestamp_ms": 111_000.0, "timestamp_on_close_ms": 121_000.0});
+        if got != want {
+            rep.violation(
+                "closed-under-another-time-source",
+                json!({"what": "timer / timestamps / stopwatch created under injected source A (wall clock 111 s, then advanced by 10 s) and closed on a thread whose thread-local source is B (222 s): every value must come from A",
+                       "got": got, "expected": want}),
+            );
+            return;
+        }
+        let _ = sw.start();
+        rep.distinct(Fnv::new().str("closed-under-other-source").finish());
+    }
     let sys = secs(time_source());
     let real = std::time::SystemTime::now().duration_since(UNIX_EPOCH).unwrap().as_secs();
     rep.eval();
@@ -416,7 +510,7 @@ fn main() {
         let mut rng = Rng::derive(args.seed, args.get_u64("variant", 0));
         for i in 0..args.get_u64("rounds", 4) {
             rep.eval();
-            if !concurrent_round(&mut rng, &rep) {
+            if !concurrent_round(&mut rng, &rep) || !concurrent_close_round(&mut rng, &rep) {
                 break;
             }
             rep.distinct(Fnv::new().str("conc").u64(i).finish());
